@@ -64,6 +64,12 @@ def equivalent(a: Any, b: Any, ctx: Optional[Ctx], env: Optional[Dict[str, Any]]
             ax = powr_axioms(ta[1], tb[1])
             cond = ta[1] != tb[1]
         r, m = ctx.query_lazy(dom + [cond], ax)
+        if r == "sat" and ta[0] != "eq":
+            # "up to floating-point rounding of constants the rule folded": a difference counts only when it exceeds
+            # 1e-12 relative (the tolerance of the concrete replay); asked only after the exact query found a difference
+            d = ta[1] - tb[1]
+            scale = z3.If(ta[1] >= 0, ta[1], -ta[1]) * z3.RealVal("1/1000000000000")
+            r, m = ctx.query_lazy(dom + [z3.Or(d > scale, -d > scale)], ax)
         return {"unsat": "same", "sat": "differ", "unknown": "unknown"}[r], m
     assert env is not None
     try:
